@@ -61,6 +61,7 @@ func profileFor(prop string) Profile {
 		p.PLegacy, p.PSecondaryOpt, p.PRollout = 0.4, 0.7, 0.5 // the legacy secondary key belongs to the user, whatever else is in the context
 	case "C14":
 		p.PDocNoise = 0.1
+		p.PLongValues = 0.05
 		// what the preprocessor touches: equality sets, regex / date / semver operands, target and segment key lists
 		p.Ops = append(append([]string{}, allOps...), "in", "in", "matches", "before", "after", "before", "after", "semVerEqual", "semVerLessThan", "semVerGreaterThan")
 		p.PSegmentOp, p.MinSegs, p.PTargets, p.PCtxTargets, p.POff, p.PPrereq = 0.3, 1, 0.4, 0.3, 0.05, 0.2
